@@ -11,13 +11,14 @@ Scope and OPEN clauses (claim: partial, DESIGN §5.4/§7):
   the per-pair geometric oracle of the harness only): `A` is the true neighbour relation / face area of the Voronoi
   diagram of the `2N` points on S³ (completeness of scipy/qhull), and it is symmetric and antipodally symmetric
   (validated on every explored grid).
-* OPEN, and **false on the pinned tree** (open findings F13, F14 of `findings/C04.json`): "for every rotation grid with
-  at least four points the border matrix exists".  `RotobjVoronoi._calculate_borders` aborts the whole matrix with an
-  `AssertionError` (F13) when the Girard sum of a tiny face, computed from cosines rounded to 7 decimals, is negative
-  (library grids randomQ_84…101 and randomQ_N for every N ≥ 224 explored), and (F14) when `np.linalg.matrix_rank` of
-  the shared vertices of an ordinary face is 4 at machine precision.  Both sites are in `Model/FaceArea.lean`
-  (`girardArea`, `borderAreaChecked`, Float — outside the kernel), where the correspondence check reproduces the
-  `AssertionError` on the stored witnesses.  The theorems below therefore speak about the fold of a matrix that exists.
+* OPEN (Float code, outside the kernel): "for every rotation grid with at least four points the border matrix exists
+  and its entries are the faces' spherical areas".  Two defects of `RotobjVoronoi._calculate_borders` found by this
+  check were repaired in `/repo` (findings F13, F14 of `findings/C04.json`, now "fixed"): the Girard sum of a tiny
+  face built from cosines rounded to 7 decimals was negative and aborted the whole matrix with an `AssertionError`
+  (randomQ_84…101, every randomQ_N with N ≥ 224 explored; repair a2316f0: angles from tangent vectors), and
+  `np.linalg.matrix_rank` of the shared vertices of an ordinary face was 4 at machine precision (repair 35f2358:
+  tolerance 1e-9).  `Model/FaceArea.lean` follows the repaired code (`alphaLaw`, `rankTolerance`) and keeps the
+  pre-repair angle as `alphaLawRounded`; the witnesses run first on every run.  No theorem is claimed about areas.
 
 Notation: `A` is the full-sphere `2N × 2N` matrix (adjacency, border areas or centre distances; produced on top of
 scipy/qhull, an input of the model), `B = foldMat truthy opp A` the matrix after the fold, `opp` the antipode map,
